@@ -46,6 +46,8 @@ pub mod loader;
 pub mod memory;
 pub mod transformation;
 pub mod translator;
+#[cfg(feature = "falcon_verif")]
+pub mod verif;
 
 #[cfg(not(feature = "thread_safe"))]
 use std::rc::Rc;
